@@ -4,7 +4,7 @@ import zlib
 ID = 'C12'
 RULE = ('three streams. (a) byte level, compared with the Lean model: crc32fast::hash vs crc32 on random/structured buffers (every length 0..64, lengths to 4096), and DataView::<T>::using on frames built '
         'from arbitrary bodies for five message types with root sizes 4/8/64/12/..: valid frames, every single-bit flip of small frames, every truncation, extensions, frames with valid CRC but shorter than the '
-        'root (incl. the 4-byte frame of the empty body). (b) value level on the implementation: Payload/Status values (empty, nested, up to 1 MiB) through to_view_bytes -> DataView::using -> deserialize_view, '
+        'root (incl. the 4-byte frame of the empty body). (b) value level on the implementation: Payload/Status values (empty, nested, up to 1 MiB) and narrow types (u8, bool, u16, [u8;3], [u8;5], [u8;7]: roots with alignment 1-2 and odd sizes) through to_view_bytes -> DataView::using -> deserialize_view, '
         'with EVERY single-bit flip (exhaustive up to 2 KiB frames, strided above), every truncation and some extensions of the real frame. (c) end to end over loopback: echo handler and error handler. '
         'non-trivial = a case containing both accepted and rejected frames, or a value round trip; distinct by hash')
 ASSUMPTIONS = ['accepted frames always have a 16-byte aligned root (true of every frame to_view_bytes produces; a mis-aligned root is undefined behaviour inside rkyv::archived_root and is not generated)', 'rkyv (de)serialisation is a codec pair with dec(enc v) = v; its layout, alignment and the unchecked cast are outside the Lean model (observed by stream (b), not proved)',
@@ -61,6 +61,8 @@ def gen_case(rng, idx, heavy):
         elif k == 8:
             size = rng.choice([0, 1, 7, 100, 1000, 1900, 5000]) if not heavy else rng.choice([0, 1, 100, 2000, 70000, 1 << 20])
             lines.append('roundtrip %d %d' % (rng.below(1 << 32), size))
+            if rng.chance(1, 2):
+                lines.append('roundtrip-narrow %s %s' % (rng.choice(['u8', 'bool', 'u16', 'a3', 'a5', 'a7']), hx(bytes([rng.choice([0, 1, 2, 0xFF, rng.below(256)]) for _ in range(5)]))))
             if rng.chance(1, 3):
                 lines.append('roundtrip-status %d %s' % (rng.below(5), hx(''.join(rng.choice('ab é/') for _ in range(rng.below(40))).encode())))
         else:
@@ -101,7 +103,7 @@ def generate(rng, tier):
 
 def canon(line, out):
     # value-level and end-to-end lines have no byte-level model counterpart
-    return 'x' if line.split()[0] in ('roundtrip', 'roundtrip-status', 'echo', 'fail') else out
+    return 'x' if line.split()[0] in ('roundtrip', 'roundtrip-narrow', 'roundtrip-status', 'echo', 'fail') else out
 
 
 def kv(out):
@@ -124,7 +126,7 @@ def oracle(case, impl):
         elif t[0] == 'crc':
             b = bytes.fromhex(t[1]) if t[1] != '-' else b''
             if out != str(zlib.crc32(b)): bad.append('%s: crc %s != %d' % (line[:60], out, zlib.crc32(b)))
-        elif t[0] in ('roundtrip', 'roundtrip-status'):
+        elif t[0] in ('roundtrip', 'roundtrip-narrow', 'roundtrip-status'):
             d = kv(out)
             if d.get('trailer_ok') != 'true' or d.get('same') != 'true':
                 bad.append('%s: value did not round-trip: %s' % (line, out))
